@@ -91,6 +91,18 @@ def ring_plans(run):
         for c in pl[1:]:
             c["obs"] = [True] * 40    # every handle here comes from NewRing, i.e. is initialised
         gen.append(pl)
+    # Do with a callback that changes the ring while it is being walked (a fresh node or a second ring linked in behind the element
+    # just visited, the next element unlinked): the walk must see exactly what container/ring's walk sees
+    for n in (1, 2, 3, 5):
+        for start in sorted({1, n}):
+            for at in range(1, n + 1):
+                for mut in ("linknew", "link", "unlink"):
+                    pl = [dict(op="Reset"), dict(op="NewRing", r=0, q=0, k=n), dict(op="NewRing", r=0, q=0, k=2)]
+                    pl.append(dict(op="DoMut", r=start, q=n + 1, k=0, at=at, mut=mut))
+                    pl.append(dict(op="DoMut", r=start, q=0, k=0, at=1, mut="linknew"))
+                    for c in pl[1:]:
+                        c["obs"] = [True] * 40
+                    gen.append(pl)
     # big rings (block allocation boundaries at 64, 128 ...): only a handful of handles is observed after each call
     for n in ((65, 130) if run.quick() else (65, 129, 200, 300)):
         watch = sorted({1, 2, 63, 64, 65, 66, 67, n - 1, n, 127, 128, 129, 130} & set(range(1, n + 1)))
